@@ -104,3 +104,56 @@ func VerifShardManagerLifecycle() {
 		os.RemoveAll(root)
 	}
 }
+
+// ---- C12 at the RPC handlers: the real RPCInsertPoints / RPCGetShardInfo / point handlers run
+// on the shard manager concurrently with the idle timer and a collection deletion.
+func VerifShardRPCHandlers() {
+	root := verifRootDir()
+	sm := NewShardManager(ShardManagerConfig{RootDir: root, ShardTimeout: 1, MaxCacheSize: -1})
+	c := &ClusterNode{Servers: []string{"self"}, MyHostname: "self", shardManager: sm, metrics: newClusterNodeMetrics()}
+	col := models.Collection{UserId: "u", Id: "c"}
+	args := RPCRequestArgs{Source: "self", Dest: "self"}
+	withDelete := vparam("DELETE", 1) == 1
+	handler := nondetIntRange(0, 4)
+	if h := vparam("HANDLER", -1); h >= 0 {
+		vassume(handler == h)
+	}
+	var wg sync.WaitGroup
+	wg.Add(1)
+	go func() {
+		defer wg.Done()
+		switch handler {
+		case 0:
+			_ = c.RPCInsertPoints(&RPCInsertPointsRequest{RPCRequestArgs: args, Collection: col, ShardId: "s1"}, &RPCInsertPointsResponse{})
+		case 1:
+			_ = c.RPCGetShardInfo(&RPCGetShardInfoRequest{RPCRequestArgs: args, Collection: col, ShardId: "s1"}, &RPCGetShardInfoResponse{})
+		case 2:
+			_ = c.verifOrigRPCUpdatePoints(&RPCUpdatePointsRequest{RPCRequestArgs: args, Collection: col, ShardId: "s1"}, &RPCUpdatePointsResponse{})
+		case 3:
+			_ = c.verifOrigRPCDeletePoints(&RPCDeletePointsRequest{RPCRequestArgs: args, Collection: col, ShardId: "s1"}, &RPCDeletePointsResponse{})
+		case 4:
+			_ = c.verifOrigRPCSearchPoints(&RPCSearchPointsRequest{RPCRequestArgs: args, Collection: col, ShardId: "s1", SearchRequest: models.SearchRequest{Query: models.Query{Property: "_id", String: &models.SearchStringOptions{Value: "x", Operator: models.OperatorEquals}}, Limit: 1}}, &RPCSearchPointsResponse{})
+		}
+	}()
+	if withDelete {
+		wg.Add(1)
+		go func() {
+			defer wg.Done()
+			_, err := sm.DeleteCollectionShards(col)
+			vassert("delete-returns-without-error", err == nil)
+		}()
+	}
+	wg.Wait() // every call returns
+	vcover("reached")
+	ran := false
+	err := sm.DoWithShard(col, "s1", func(s *shard.Shard) error {
+		ran = true
+		vassert("later-request-runs-on-an-open-shard", vhandleopen(s))
+		return nil
+	})
+	vassert("later-request-is-served-or-cleanly-refused", err != nil || ran)
+	if !vsymbolic() {
+		sm.DeleteCollectionShards(col)
+		os.RemoveAll(root)
+	}
+}
